@@ -231,6 +231,13 @@ def column_adder(prog, res, f, kind, rule='column'):
                 pass
             else:
                 bad.append('sub-frame loop bound is %s: must cover every stored sub-frame' % b)
+    g = f.events()
+    av = g.vertex_of.get(n['id'])
+    late = [t for t in f.all_nodes({'CXXThrowExpr'}) if av is not None and g.vertex_of.get(t['id']) in g.reach([av])]
+    if late:
+        res.viol(rule, inst + ': every frame or none', f.loc(late[0]['id']),
+                 'a throw is reachable after the first append (%s): a request refused at a later frame leaves the earlier frames with the column and the others without' % f.loc(n['id']),
+                 function=f.sig, expr='throw-after-append')
     if bad:
         res.viol(rule, inst, f.loc(n['id']), '; '.join(bad), function=f.sig, expr='bounds')
     else:
